@@ -714,13 +714,16 @@ def inline_helpers(stmt, helpers, depth=0):
                 return e0, callee
         return None, None
 
-    def expand(call, callee):
+    def expand(call, callee, tail=False):
         """(statements, return expression or None) or None when the helper has an early return"""
         body = callee["body"]["s"]
         rets = [x for x in walk_stmt(callee["body"]) if x.get("k") == "Return"]
-        tail = body[-1] if body and body[-1].get("k") == "Return" else None
-        if len(rets) > (1 if tail is not None else 0):
-            return None
+        if tail:
+            tail_ret = None
+        else:
+            tail_ret = body[-1] if body and body[-1].get("k") == "Return" else None
+            if len(rets) > (1 if tail_ret is not None else 0):
+                return None
         pre = []
         m = {}
         for p, a in zip(callee["params"], call["a"]):
@@ -741,9 +744,9 @@ def inline_helpers(stmt, helpers, depth=0):
             if st.get("k") == "For" and st.get("init") is not None and st["init"].get("k") == "Decl":
                 for d in st["init"]["d"]:
                     idmap[d["id"]] = _fresh_id()
-        stmts = [subst(x, m, idmap) for x in (body[:-1] if tail is not None else body)]
+        stmts = [subst(x, m, idmap) for x in (body[:-1] if tail_ret is not None else body)]
         stmts = [inline_helpers(x, helpers, depth + 1) for x in stmts]
-        ret = subst(tail["x"], m, idmap) if tail is not None and tail.get("x") is not None else None
+        ret = subst(tail_ret["x"], m, idmap) if tail_ret is not None and tail_ret.get("x") is not None else None
         return pre + stmts, ret
 
     def rec(s):
@@ -769,6 +772,13 @@ def inline_helpers(stmt, helpers, depth=0):
                 call, callee = the_call(s)
                 if call is not None:
                     ex = expand(call, callee)
+                    if ex is not None:
+                        return {"k": "Block", "l": s.get("l"), "inlined": callee["full"], "s": ex[0]}
+            if k == "Return" and s.get("x") is not None:
+                # `return h(args);`: a tail call - the helper's own return statements become those of the caller
+                call, callee = the_call(s["x"])
+                if call is not None:
+                    ex = expand(call, callee, tail=True)
                     if ex is not None:
                         return {"k": "Block", "l": s.get("l"), "inlined": callee["full"], "s": ex[0]}
         if k == "Block":
